@@ -36,8 +36,15 @@ pub fn run_seed(base: u64, prof: Profile, idx: u64) -> u64 {
 }
 
 fn init_process() {
-    // silent panic hook: panics are caught, classified and reported by the executor
-    std::panic::set_hook(Box::new(|_| {}));
+    // silent panic hook: panics are caught, classified and reported by the executor. Panics that
+    // cannot unwind (std's `unsafe precondition(s) violated` checks) abort the process instead;
+    // those are printed so that the driver can quote them.
+    std::panic::set_hook(Box::new(|info| {
+        let msg = exec::panic_text(info.payload());
+        if msg.contains("unsafe precondition") {
+            eprintln!("NON-UNWINDING-PANIC {msg} at {}", info.location().map_or(String::new(), |l| l.to_string()));
+        }
+    }));
     let _ = log::set_logger(&faults::LOGGER);
     log::set_max_level(log::LevelFilter::Warn);
     #[cfg(feature = "hooks")]
@@ -171,20 +178,38 @@ fn replay_main(args: &[String]) -> i32 {
 }
 
 fn miri_main(args: &[String]) -> i32 {
-    let Some(prof) = arg_val(args, "--profile").and_then(|p| Profile::parse(&p)) else {
-        eprintln!("miri: --profile …");
-        return 2;
-    };
+    let prop = arg_val(args, "--prop");
     let seed = arg_u64(args, "--seed", 0);
     init_process();
-    let tr = ops::generate(run_seed(seed, prof, 0), prof, true);
+    // the workload is either generated from (--profile, --seed) or handed over as explicit text
+    let tr = if let Some(text) = arg_val(args, "--trace-text") {
+        match Trace::parse(&text.replace("\\n", "\n")) {
+            Ok(t) if !t.runs.is_empty() => t.runs[0].clone(),
+            Ok(_) => {
+                eprintln!("miri: empty trace");
+                return 2;
+            }
+            Err(e) => {
+                eprintln!("miri: {e}");
+                return 2;
+            }
+        }
+    } else {
+        let Some(prof) = arg_val(args, "--profile").and_then(|p| Profile::parse(&p)) else {
+            eprintln!("miri: --profile … --seed N | --trace-text TEXT");
+            return 2;
+        };
+        ops::generate(run_seed(seed, prof, 0), prof, true)
+    };
+    model::LIGHT.store(true, std::sync::atomic::Ordering::Relaxed);
     let rep = run_one(&tr, &RunOpts { miri: true, exe: None });
     let g = |k: &str| rep.counters.get(k).copied().unwrap_or(0);
     println!("MIRI-RUN workload={seed} threads={} ops={} conv_ok={} refs={}", rep.threads, g("ops"), g("conv_ok"), g("refs_fresh_thread"));
     let mut bad = false;
     for v in &rep.violations {
-        println!("VIOL idx=0 seed={} inv={} props={} key={} seq={} tid={} msg={}", rep.seed, v.inv, if v.props.is_empty() { "-" } else { v.props }, v.key.replace(' ', "_"), v.seq, v.tid, esc(&v.msg));
-        bad = true;
+        let mine = v.inv == "HARNESS" || prop.as_ref().map_or(true, |p| v.props.split(',').any(|x| x == p));
+        println!("{} idx=0 seed={} inv={} props={} key={} seq={} tid={} msg={}", if mine { "VIOL" } else { "OTHER" }, rep.seed, v.inv, if v.props.is_empty() { "-" } else { v.props }, v.key.replace(' ', "_"), v.seq, v.tid, esc(&v.msg));
+        bad |= mine;
     }
     i32::from(bad)
 }
